@@ -13,10 +13,11 @@ COMMON_ASSUMPTIONS = [
 
 class Spec:
     def __init__(self, pid, jobs, tags=None, memsafe=False, level='model_checking', explanation='', bounds=None, assumptions=None,
-                 quick_validate=6, compile_failure_is_violation=False, custom=None, engine='ll2c+cbmc', level_text=None, level_note=None, technique=None):
+                 quick_validate=6, compile_failure_is_violation=False, custom=None, engine='ll2c+cbmc', level_text=None, level_note=None, technique=None, also=None):
         self.pid = pid; self.jobs = jobs; self.tags = tags or [pid]; self.memsafe = memsafe; self.level = level
         self.explanation = explanation; self._bounds = bounds; self.assumptions = assumptions or []
         self.quick_validate = quick_validate; self.compile_failure_is_violation = compile_failure_is_violation; self.custom = custom
+        self.also = tuple(also or ());   # assertions carrying another property's tag that this property's statement also demands
         self.engine = engine; self.level_text = level_text; self.level_note = level_note; self.technique = technique
     def bounds(self, tier):
         b = dict(BOUNDS[tier])
@@ -284,6 +285,12 @@ def c11_jobs(tier):
                 if tier == 'quick' and el == 'Tr' and (n, cap) == (0, 2): continue
                 js.append(ops_job(op, el, n, cap, alias=1, maxcnt=2 if tier == 'quick' else 3))
     for op in ['insert_n', 'insert_c', 'emplace']: js.append(ops_job(op, 'int', 2, 6, alias=1, maxcnt=3))
+    # element type whose move operations change their source (Pz): a copy taken from an element that was already moved from is a wrong value
+    for op in OPS_ALIAS:
+        for (n, cap) in ([(2, 2), (2, 4)] if tier == 'quick' else [(2, 2), (2, 4), (0, 2), (3, 3), (2, 5)]):
+            if cap == n:
+                for sz in range(1, cap + 1): js.append(ops_job(op, 'Pz', n, cap, alias=1, maxcnt=2, size=sz))   # struct element in the inline representation: size pinned
+            else: js.append(ops_job(op, 'Pz', n, cap, alias=1, maxcnt=2))
     return _nn(js)
 REG['C11'] = Spec('C11', c11_jobs, tags=['C11', 'C01'], memsafe=True, explanation=
     'push_back(v[i]), emplace_back(v[i]), insert(pos,v[i]), insert(pos,n,v[i]), emplace(pos,v[i]), resize(n,v[i]) with symbolic i<size, pos<=size, n, from every (rep,cap,size) cell, '
@@ -334,10 +341,10 @@ def c07_jobs(tier):
                 for ideq in (1, 0):
                     js.append(two_job(op, 'Tr', 2, 2, 4, 4, afl=afl, ideq=ideq, followup=1))
     return _nn(js)
-REG['C07'] = Spec('C07', c07_jobs, tags=['C07'], compile_failure_is_violation=True, explanation=
+REG['C07'] = Spec('C07', c07_jobs, tags=['C07'], compile_failure_is_violation=True, also=['C04: deallocate through an allocator not equal to the one that allocated'], explanation=
     'Allocators carry an id; for every relevant combination of POCCA/POCMA/POCS, is_always_equal, select_on_container_copy_construction, equal/unequal ids, same and different inline capacities and '
     '(inline/heap, size) states of both operands: after copy/move/allocator-extended construction, copy/move assignment, assign(), swap the id of get_allocator() of both containers equals what the traits prescribe, '
-    'and a follow-up reserve(capacity()+1) on each container must allocate through that current id (ledger). A trait combination that does not compile is reported as a violation (front-end decided).')
+    'and a follow-up reserve(capacity()+1) on each container must allocate through that current id (ledger); every block released afterwards (follow-up, destruction) must be released through an allocator equal to the one that produced it ("all later storage traffic uses the container\'s current allocator": the ledger assertion shared with C04). A trait combination that does not compile is reported as a violation (front-end decided).')
 
 def c09_jobs(tier):
     js = []
@@ -605,6 +612,21 @@ def c13_jobs(tier):
     for n in (0, 2):
         for std in (('c++17',) if tier == 'quick' else ('c++11', 'c++17', 'c++20')):
             js.append(arch_job(1, n, std)); js.append(arch_job(0, n, std))
+    # (i') trivial element types whose T() is not all-zero bytes (pointer to data member, aggregate holding one) + control: value-initialisation and fill shortcuts
+    from .jobs import vinit_job
+    for vt in (0, 1, 2):
+        for n in ((0, 2) if tier == 'quick' else (0, 1, 2, 3)):
+            for sa in (1, 0):
+                for std in (('c++17',) if tier == 'quick' else ('c++11', 'c++17', 'c++20')):
+                    light = tier == 'quick' and (sa == 0 or vt == 2)
+                    if vt == 2 and tier == 'quick' and (sa == 0 or n == 0): continue
+                    js.append(vinit_job(vt, n, sa, std, 1))
+                    if not light and vt != 1: js.append(vinit_job(vt, n, sa, std, 2))   # count/value ctor + assign(n, v); measured: > 10 GB for the aggregate
+                    for part in (3, 4, 5):
+                        for pre in (0, 1, 2):
+                            if light and (part, pre) != (3, 1): continue
+                            if part == 3 and pre == 0 and n > 0: continue   # measured: > 10 GB; resize from empty is the count constructor's path (part 1) plus pre = 1, 2
+                            js.append(vinit_job(vt, n, sa, std, part, pre))
     for std in ('c++20',):
         for (s, d) in [('long', 'long long'), ('int', 'unsigned'), ('short', 'int')]:
             js.append(conv_job(s, d, via=0, part=1, std=std)); js.append(conv_job(s, d, via=1, part=4, std=std))
@@ -612,6 +634,7 @@ def c13_jobs(tier):
 REG['C13'] = Spec('C13', c13_jobs, tags=['C13', 'C01'], memsafe=True, compile_failure_is_violation=True, explanation=
     '(i) the trivially copyable twin Tv of the instrumented element type is driven through the same one-step harnesses against the same sequence model as Tr (C01), so memcpy/memmove/fill shortcuts change no result; '
     'heap blocks are exact-size objects, so any access outside the elements\' storage is a cbmc bounds violation (typed-loop lowering of memcpy keeps those checks exact). '
+    'A pointer-to-data-member element type (null is -1, not zero bytes), an aggregate holding one and a long long control go through count construction, count/value construction, assign(n,v), resize(n), resize(n,v) and emplace_back() with std::allocator (no construct member) and vf_alloc: every value-initialised element equals T(), every filled element the value. '
     '(ii) construct / assign / insert / append / emplace from a contiguous range (raw pointers and small_vector iterators: what selects the bulk-copy path) and from forward iterators of a DIFFERENT source type: every stored '
     'element must equal static_cast<T>(source) for all source values: integral pairs of equal and different width and signedness, bool, enums, char kinds, floating point, pointer pairs including Derived* -> second base (offset adjustment), void*. '
     'A source/destination pair that the generic path accepts but that does not compile on the bulk-copy path is reported as a violation (front-end decided).',
